@@ -1,7 +1,7 @@
 INIT Init
 NEXT Next
 CONSTANTS MaxDepth = 1
- LeafMode = "plain"
+ LeafMode = "mapped"
  WithPairs = FALSE
 INVARIANT Emit
 CHECK_DEADLOCK FALSE
